@@ -132,6 +132,9 @@ func MuxScenarios(thorough bool) []MuxScenario {
 		MuxScenario{Name: "fix-failing-tables", Period: 40, Setup: setupA, Alpha: []MOp{opTables, opPcrX, opPcrA}, Depth: fixDepth, Dedup: true},
 		MuxScenario{Name: "fix-noroom-p2", Period: 2, Setup: setupA, Alpha: []MOp{opDataAnor, opDataA1, opTables}, Depth: -1, Dedup: true},
 		MuxScenario{Name: "noroom-kinds-p3", Period: 3, Setup: setupA, Alpha: []MOp{opDataAnor, opDataAnorPCR, opDataAnorRAI, opDataAnorSt, opDataAnorStP, opDataA1, opDataARAI}, Depth: 4, Dedup: true},
+		// insertion order survives removals from the front and the middle of four streams (PCR on the second)
+		MuxScenario{Name: "remove-order-p40", Period: 40, Setup: []MOp{opAddA, opAddB, opAddAuto, opAddAuto, opPcrB},
+			Alpha: []MOp{opRmA, opAddA, {K: "rm", PID: 0x102}, {K: "add", PID: 0x102, ST: 0x0f}, {K: "rm", PID: 0x103}, opTables, opDataB1}, Depth: 5, Dedup: true},
 		MuxScenario{Name: "fix-add-remove", Period: 40, Setup: setupA, Alpha: []MOp{opAddB, opRmB, opTables}, Depth: -1, Dedup: true},
 		MuxScenario{Name: "fix-readd-p1", Period: 1, Setup: setupA, Alpha: []MOp{opRmA, opAddA, opDataA1}, Depth: fixDepth, Dedup: true},
 		MuxScenario{Name: "readd-two-pids-p40", Period: 40, Setup: setupAB, Alpha: []MOp{opRmA, opAddA, opDataA1, opDataB1, opRmB, opAddB}, Depth: readdDepth, Dedup: true},
